@@ -141,6 +141,11 @@ func C15(rep *ev.Reporter, tier string) {
 			}
 		}
 	}
+	innerB, ierr := hx.Build(hx.NewProgram([]*grl.Rule{grl.R("n1", nil, "F.I < 2", "F.I = F.I + 1")}, grl.Style{}))
+	if ierr != nil {
+		rep.Violation("harness:build-failed:c15-inner", ierr.Error(), nil)
+		return
+	}
 	var runs, nontrivial, pollPoints, eventPoints int64
 	ParallelEach(len(progs), func(i int) {
 		p := progs[i]
@@ -167,6 +172,19 @@ func C15(rep *ev.Reporter, tier string) {
 					var pc *hx.PollCtx
 					o := hx.RunOpts{MaxCycle: 6, ReturnErr: flag, DefaultChoice: order, NoSnapshots: true}
 					switch mode {
+					case "poll-nested":
+						// the run shares its *GruleEngine value with another run - own instance, facts and (never
+						// cancelled) context - that starts and ends inside the first probe of this run
+						pc = hx.NewPollCtx(idx, cause)
+						se := hx.NewSharedEngine(6, flag)
+						o.Shared = se
+						nested := false
+						o.OnProbe = func(kind string, id int64, n int) {
+							if !nested {
+								nested = true
+								hx.Run(innerB, c15World(), hx.RunOpts{Shared: se, NoSnapshots: true})
+							}
+						}
 					case "poll":
 						pc = hx.NewPollCtx(idx, cause)
 					case "event":
@@ -207,6 +225,12 @@ func C15(rep *ev.Reporter, tier string) {
 					}
 					tr = hx.Run(b, w, o)
 					s, wh, nt := c15Judge(p.rules, cause, tr)
+					if s == "" && !pc.Flipped() && hx.OrderLive() {
+						// the context was never cancelled in this run: it is the fault-free run
+						if got, want := hx.Evs(tr.Events), hx.Evs(tr0.Events); got != want {
+							return "C15:run-differs-although-the-context-was-never-cancelled", fmt.Sprintf("the context did not flip during this run (%s), yet it observed\n   %s\n  while the run on a never-cancelled context observes\n   %s", mode, got, want), true, tr
+						}
+					}
 					return s, wh, nt, tr
 				}
 				try := func(mode string, idx int, cname string, cause error, far bool) {
@@ -237,6 +261,12 @@ func C15(rep *ev.Reporter, tier string) {
 						atomic.AddInt64(&pollPoints, 1)
 						try("poll", pidx, cname, cause, far)
 					}
+					if ci == 0 && strings.Contains(strings.Join(tr0.Events, " "), ":") && (strings.Contains(strings.Join(tr0.Events, " "), "chk:") || strings.Contains(strings.Join(tr0.Events, " "), "act:")) {
+						for pidx := 1; pidx <= P+1; pidx++ {
+							atomic.AddInt64(&pollPoints, 1)
+							try("poll-nested", pidx, cname, cause, far)
+						}
+					}
 					if ci != 1 {
 						for e := 1; e <= E; e++ {
 							atomic.AddInt64(&eventPoints, 1)
@@ -265,7 +295,7 @@ func C15(rep *ev.Reporter, tier string) {
 		rep.Exhaustive = false
 		rep.Coverage["caps_hit"] = "time budget"
 	}
-	rep.Coverage["rule"] = "35 programs (all 1-rule, all ordered 2-rule, all 3-rule selections of 5 rule kinds with condition and action probes, Complete, never-true, self-disabling) x both flag values x every static rule order; a fault-free run counts the engine's Err() polls P and its observable events E; then one run for EVERY poll index 1..P+1 (Canceled, DeadlineExceeded, and Canceled on a context that carries a deadline far in the future), EVERY event index 1..E as cancellation trigger (inside a condition probe, inside an action probe, in BeginCycle / EvaluateRuleEntry / ExecuteRuleEntry callbacks) and the already-cancelled context. Oracle: no ExecuteRuleEntry and no action probe of another rule after the flip; already-cancelled: zero firings; the context's error is returned unless Complete was called or no active rule is satisfied on the final facts. Non-trivial: the context really flipped during the run."
+	rep.Coverage["rule"] = "35 programs (all 1-rule, all ordered 2-rule, all 3-rule selections of 5 rule kinds with condition and action probes, Complete, never-true, self-disabling) x both flag values x every static rule order; a fault-free run counts the engine's Err() polls P and its observable events E; then one run for EVERY poll index 1..P+1 (Canceled, DeadlineExceeded, and Canceled on a context that carries a deadline far in the future), EVERY event index 1..E as cancellation trigger (inside a condition probe, inside an action probe, in BeginCycle / EvaluateRuleEntry / ExecuteRuleEntry callbacks) and the already-cancelled context; every poll index again while the engine VALUE is shared with another complete run (own instance, facts and never-cancelled context) nested inside the first probe of the run. Oracle: no ExecuteRuleEntry and no action probe of another rule after the flip; already-cancelled: zero firings; the context's error is returned unless Complete was called or no active rule is satisfied on the final facts. Non-trivial: the context really flipped during the run."
 	rep.Assumptions = append(rep.Assumptions, "a cancellation after the engine's last look at the context is indistinguishable from one after return and is accepted when no satisfied rule is left")
 }
 
